@@ -4,3 +4,5 @@ from . import ints           # noqa: F401
 from . import cast           # noqa: F401
 from . import strings        # noqa: F401
 from . import lookup         # noqa: F401
+from . import index          # noqa: F401
+from . import index2         # noqa: F401
